@@ -81,7 +81,7 @@ def quick_post_filter(pid):
         if base in ARCH_FILES:
             return base == own
         if base in ("xsimd_api.hpp", "xsimd_batch.hpp"):
-            return fn.aid == "sse2" or (fn.aid == "avx512bw" and fn.tid in ("i8", "f32"))   # forwarding layers: one vector-mask and one k-mask shape
+            return fn.aid == "sse2" or (fn.aid == "avx512bw" and fn.tid == "i8")   # forwarding layers: one vector-mask and one k-mask shape
         if fn.aid in QUICK_BASE:
             return True
         if any(os.path.basename(i.get("file", "")) == own for i in job.get("inlined", [])):
